@@ -11,24 +11,35 @@ import warnings
 
 import numpy as np
 
-RULE = ('random observations (3-16 dumps with scan/compscan/target structure and optional gaps, 2-4 antennas, 3-12 '
-        'correlation products incl. cross-pol, 2-12 channels of either sideband, catalogue of 2-5 targets with aliases '
-        'and tags) x histories of 1-8 select() calls with 0-3 criteria each over all criterion kinds (dumps, timerange, '
-        'scans, compscans, targets, target_tags, channels, freqrange, corrprods, ants, inputs, pol, flags, weights, '
-        'spw, subarray, strict, unknown keywords) x argument forms (int, numpy int, slice, int list, int array, bool '
-        'list/array, name, ~name, comma string, list, tuple, object, description) x reset in {absent, auto, \'\', T, F, '
-        'B, TF, TB, FB, TFB, permuted letters}; a case is one call in its history; non-trivial when the call carries at '
-        'least one criterion or an explicit reset and the resulting selection is neither everything nor empty in all '
-        'three dimensions; distinct by (observation, history prefix); thorough tier adds all two-call histories over a '
-        'fixed alphabet and 300 histories on two synthetic MVF v4 data sets opened through VisibilityDataV4')
-ASSUMPTIONS = ['single spectral window and single subarray (spw = subarray = 0); multi-window switching is not modelled',
-               'names cross the wire as integer ids assigned by the harness (katpoint name normalisation and '
-               '_selection_to_list string splitting are performed by the real code on the implementation side and by '
-               'the harness on the model side)',
-               'timestamps / frequencies / range end points are multiples of a quarter dump / quarter channel that are '
-               'exactly representable in float64, so all comparisons are exact',
-               'after an exception other than the strict TypeError the history is abandoned (the implementation '
-               'leaves the data set half-updated; the property does not constrain that state)']
+RULE = ('PART 1 (wire_2, single window): random observations (3-16 dumps with scan/compscan/target structure and optional '
+        'gaps, 2-4 antennas, 3-12 correlation products incl. cross-pol, 2-12 channels of either sideband, catalogue of 2-5 '
+        'targets with aliases and tags) x histories of 1-8 select() calls with 0-3 criteria each over all criterion kinds x '
+        'argument forms (int, numpy int, slice, int list, int array, bool list/array, name, ~name, comma string, list, tuple, '
+        'object, description) x reset in {absent, auto, \'\', T, F, B, TF, TB, FB, TFB, permuted letters}.  '
+        'PART 2 (wire_21, extended model): observations with 1-3 spectral windows (different channel counts, widths, '
+        'sidebands) and 1-2 subarrays (different antennas / products), per-dump spw_index / subarray_index sensors; '
+        'histories of 1-9 calls that are NOT cut at an exception; criteria in their SURFACE form (the raw comma string '
+        'with arbitrary ASCII white space, list / tuple items that are unstripped, wrong-case, empty, "~", integers, numpy '
+        'integers, Antenna objects); spw= / subarray= valid, unchanged, == n, negative; index forms incl. tuples, empty '
+        'tuple, 0-d bool / numpy bool / 0-d arrays, range, duplicates, all-false / all-true; one history in four is a '
+        'MALFORMED STREAM (30% of its criteria raise in their loop branch: out-of-range index, wrong mask length, slice '
+        'step 0, empty name item, non-string pol / antenna item); a case is one call in its history; non-trivial when it '
+        'carries a criterion or reset and the selection is neither everything nor empty in all three dimensions (or, for '
+        'a failed call, when it changed the data set); distinct by (observation, history prefix).  PART 3 (wire_22): '
+        '_selection_to_list and _is_deselection called directly on generated strings / sequences.  Thorough tier adds all '
+        'two-call histories over a fixed alphabet and 300 histories on two synthetic MVF v4 data sets opened through '
+        'VisibilityDataV4 (part 1 model)')
+ASSUMPTIONS = ['names are compared through vocabulary tables sent to the model (scan states, compscan labels, tags, antenna '
+               'names, input labels as STRINGS -> ids); a string outside the tables is "unknown".  Target names / '
+               'descriptions / objects are resolved by katpoint on the implementation side and by the harness on the '
+               'model side (katpoint name normalisation and Target equality are outside katdal)',
+               'timestamps / frequencies / range end points are multiples of a quarter dump / quarter channel of the '
+               'narrowest window that are exactly representable in float64, so all comparisons are exact',
+               'strings are ASCII (Python str.strip / str.lower are modelled for code points < 128)',
+               'part 1 only: single spectral window and single subarray, and after an exception other than the strict '
+               'TypeError the history is abandoned (part 2 has neither restriction)',
+               'timerange given as strings and non-integer spw / subarray / non-string reset values are not generated '
+               '(the model returns "other exception" for them)']
 
 STATES = ['slew', 'track', 'scan', 'stop']
 LABELS = ['', 'track', 'raster', 'cal', 'point']
@@ -725,8 +736,12 @@ def run(ctx):
     # 1. known-finding witnesses first
     if not ctx.model_ok and not search_without_model(ctx):
         return
+    from props import c02x
     for f in ctx.findings:
-        run_witness(ctx, f['witness'])
+        if f['witness'].get('x'):
+            c02x.run_xwitness(ctx, f['witness'])
+        else:
+            run_witness(ctx, f['witness'])
     # 2. random histories
     nobs = ctx.scale(25, 300)
     per_obs = ctx.scale(60, 100)
@@ -740,11 +755,16 @@ def run(ctx):
         for j, (h, mo) in enumerate(zip(histories, mouts)):
             run_history(ctx, ob, h, mo, dict(kind='random', oseed=oseed, per_obs=per_obs, j=j))
         ctx.count('observations')
+    # 2b. extended model: several windows / subarrays, surface forms, failed calls, public attributes in the model
+    xcases = []
+    c02x.run_random(ctx, ctx.scale(40, 400), ctx.scale(40, 80), collect=xcases)
+    c02x.run_helpers(ctx, ctx.scale(1500, 20000))
     # 3. exhaustive two-call histories over a fixed alphabet on a small observation
     exhaustive_pairs(ctx)
     # 3b. the same histories on a real format class (MVF v4 from telstate + chunk store), thorough tier
     if ctx.tier == 'thorough':
         real_format_histories(ctx)
+        c02x.run_real_format(ctx, ctx.scale(100, 100))
     # 4. cross-check of the extraction inside Coq (thorough tier)
     if ctx.tier == 'thorough':
         from vh import core
@@ -754,7 +774,7 @@ def run(ctx):
             tg = ' '.join(x[:-2] + '.vo' for x in core.coq_sources() if x.startswith(('Base/', 'Gen/', 'Model/')))
             core.sh('timeout 1500 make -j4 %s' % tg, cwd=core.COQ, timeout=1600)
             core.sh('timeout 600 coqc -Q . KV Extract/Dispatch.v', cwd=core.COQ, timeout=700)
-        sample = all_cases[:40]
+        sample = all_cases[:25] + xcases[:15]
         outs = core.run_model_in_coq([c for c, _ in sample], 'c02')
         for (c, mo), o in zip(sample, outs):
             if o != mo:
@@ -891,8 +911,13 @@ def replay(ctx, doc):
     hid = case.get('hid') or {}
     if 'witness' in doc and not hid:
         hid = dict(kind='witness', witness=doc['witness'])
+    from props import c02x
     if hid.get('kind') == 'witness':
+        if hid['witness'].get('x'):
+            return c02x.run_xwitness(ctx, hid['witness'])
         return run_witness(ctx, hid['witness'])
+    if c02x.replay(ctx, hid):
+        return
     if hid.get('kind') == 'random':
         ob, histories = random_histories(hid['oseed'], hid['per_obs'])
     elif hid.get('kind') == 'pairs':
